@@ -203,6 +203,14 @@ impl ops::Add for Pos {
     }
 }
 
+impl ops::Sub for Pos {
+    type Output = usize;
+
+    fn sub(self, rhs: Self) -> usize {
+        self.0 - rhs.0
+    }
+}
+
 impl fmt::Display for Pos {
     fn fmt(&self, f: &mut fmt::Formatter) -> fmt::Result {
         self.0.fmt(f)
